@@ -25,7 +25,12 @@ Send == \E a \in {0, 1} : \E I \in (SUBSET Spendable(s, [Qm EXCEPT !.acct = a]))
            /\ ~Insufficient(s, [Qm EXCEPT !.acct = a])
            /\ s' = Broadcast(s, x, next) /\ next' = next + 1
 Del == \E t \in {y.t : y \in s.txs} \cup {c.t : c \in s.coins} : s' = Delete(s, t) /\ UNCHANGED next
-Next == steps < MaxSteps /\ steps' = steps + 1 /\ (Receive \/ Update \/ Send \/ Del)
+\* the wallet learns that a transaction it sent is confirmed (its change output is reported with confirmations)
+Confirm == \E c \in {d \in s.coins : \E y \in s.txs : y.t = d.t} :
+              s' = UtxosUpdate(s, <<[t |-> c.t, n |-> c.n, v |-> c.v, key |-> c.key, conf |-> 2]>>, FALSE) /\ UNCHANGED next
+Again == \E y \in s.txs : s' = Resend(s, [ins |-> <<>>, outs |-> <<>>, fee |-> 0, vsize |-> 0], y.t) /\ UNCHANGED next
+Prune == s' = RemoveUnconfirmed(s) /\ UNCHANGED next
+Next == steps < MaxSteps /\ steps' = steps + 1 /\ (Receive \/ Update \/ Send \/ Del \/ Confirm \/ Again \/ Prune)
 Spec == Init /\ [][Next]_vars
 
 RECURSIVE SumKeys(_)
@@ -39,4 +44,12 @@ OneCoinPerOutpoint == \A c, d \in s.coins : (c.t = d.t /\ c.n = d.n) => c = d
 \* a stored transaction only ever spent outputs, no two stored transactions spend the same output
 NoDoubleSpend == \A x, y \in s.txs : x # y => x.ins \cap y.ins = {}
 HonestTxAccepted == TRUE
+\* pruning leaves nothing unconfirmed, and never touches a transaction known as confirmed or what it spent
+PruneRule == [][Prune => /\ Unconfirmed(s') = {}
+                         /\ \A y \in s.txs : y.conf > 0 => y \in s'.txs
+                         /\ \A y \in s.txs : y.conf > 0 => \A c \in s'.coins : <<c.t, c.n>> \in y.ins => c.spent]_vars
+\* pushing a stored transaction again changes nothing the wallet has learnt about transactions, and no other transaction's outputs
+AgainRule == [][Again => /\ s'.txs = s.txs
+                         /\ \E y \in s.txs : {c \in s'.coins : c.t # y.t} = {c \in s.coins : c.t # y.t}
+                                               /\ {[c EXCEPT !.spent = FALSE] : c \in s'.coins} = {[c EXCEPT !.spent = FALSE] : c \in s.coins}]_vars
 =============================================================================
